@@ -137,8 +137,13 @@ def main(tier: str) -> int:
         n_edges = len(traces)
         nb = 160 if tier == "quick" else 4000
         traces += [h for h in pool.map(rand_history, [run.seed * 3_000_017 + i for i in range(nb)], chunksize=10) if h]
+    # every insert_style the repository's own tests make, recorded by the external plugin
+    rc, hev, _tail = sl.harvest_repo_style_tests()
+    run.notes["harvested_insert_style_calls"] = len(hev)
+    run.notes["harvest_pytest_rc"] = rc
+    traces += [[e] for e in hev]
     resv, rep = sl.validate(traces, timeout=3000)
-    run.add_tlc("StylesTrace validation (replayed edges + random sequences)", resv)
+    run.add_tlc("StylesTrace validation (replayed edges + random sequences + calls harvested from the repository's tests)", resv)
     if rep is None:
         run.machinery("StylesTrace produced no report:\n" + resv.stdout[-2500:])
     run.count(sum(len(t) for t in traces))
@@ -148,7 +153,7 @@ def main(tier: str) -> int:
         for ev in tr:
             o = ev["op"]
             same = any(s["name"] == o.get("name") and s["family"] == o.get("family") for c in ev["pre"].values() for s in c) if o["op"] == "insert" else False
-            run.klass("A" if ti < n_edges else "B", o["op"], o.get("family"), o.get("automatic"), o.get("default"), bool(o.get("name")), same, "exc" in ev)
+            run.klass("A" if ti < n_edges else ("H" if "test" in ev else "B"), o["op"], o.get("family"), o.get("automatic"), o.get("default"), bool(o.get("name")), same, "exc" in ev)
     run.sample({"binding": "A:edge-as-trace", "op": traces[5][0]["op"], "pre": traces[5][0]["pre"], "post": traces[5][0]["post"], "ret": traces[5][0].get("ret")})
     for v in rep["verdicts"]:
         tr = traces[v["tid"] - 1]
